@@ -922,7 +922,7 @@ def check_c33(A: Analysis, col: Collector):
 @prop(
     "C34",
     technique="def-use rule on the staging call: mode/collation/destination arguments and the per-file-set memo",
-    decides="Job.inputs stages every field whose type contains FileSet with copy_nested_files(value, dest_dir=self.cache_dir, mode=fld.copy_mode, collation=fld.copy_collation, supported_modes=...), records the staged value for template resolution only when it differs, and memoises the result (self._inputs); copy_nested_files copies each distinct FileSet once and rebuilds the nested value with apply_to_instances. Additionally: apply_to_instances rebuilds each container branch from the recursive application to every element; copy_fileset returns only the memoised copy or the result of FileSet.copy (never the file-set it was given); a memo handed in as a parameter counts as shared.",
+    decides="Job.inputs stages every field whose type contains FileSet with copy_nested_files(value, dest_dir=self.cache_dir, mode=fld.copy_mode, collation=fld.copy_collation, supported_modes=...), records the staged value for template resolution only when it differs, and memoises the result (self._inputs); copy_nested_files copies each distinct FileSet once and rebuilds the nested value with apply_to_instances. Additionally: apply_to_instances rebuilds each container branch from the recursive application to every element; copy_fileset returns only the memoised copy or the result of FileSet.copy (never the file-set it was given); a memo handed in as a parameter counts as shared. Additionally (C34.stage): Job.inputs stages every field whose type holds a FileSet and that has a value, with the field's own mode and collation; no other condition may skip staging.",
     not_decided="independence of a copy from its original, link semantics, nested shape for exotic containers (fileformats behaviour).",
     level_note="Trusted: FileSet.copy honours mode and collation.",
 )
